@@ -1149,6 +1149,14 @@ func (fx *fnExec) runHook(h Hook, env *SpecEnv, where string) {
 	}
 	for _, a := range h.Assigns {
 		env.cur = fx.st
+		if guard.S != "true" && (a.Kind == "assert" || a.Kind == "assign") {
+			// a guarded statement that names a variable not yet allocated at this program point is fine as long as the
+			// guard cannot hold here: that becomes the obligation (nothing is skipped silently)
+			if fx.hookStmtUnallocated(a, env) {
+				fx.oblige("hook:guard-excludes-site", "site.hook", tNot(guard), where, "the guard of `"+a.Src+"` cannot hold where the variables it names do not exist yet")
+				continue
+			}
+		}
 		switch a.Kind {
 		case "assign":
 			root := ghostRoot(a.LHS)
@@ -1559,4 +1567,22 @@ func (fx *fnExec) tableFactIn(st *State, g *ssa.Global) {
 	}
 	fx.declared[key] = true
 	fx.assumps = append(fx.assumps, "(assert (= (select "+h.S+" "+tb.ref.S+") "+tb.content.S+"))")
+}
+
+// hookStmtUnallocated: evaluating the statement's expression fails because it names a local not allocated yet.
+func (fx *fnExec) hookStmtUnallocated(a HookStmt, env *SpecEnv) (bad bool) {
+	if a.E == nil {
+		return false
+	}
+	defer func() {
+		if r := recover(); r != nil {
+			if ve, ok := r.(vcError); ok && (strings.Contains(ve.msg, "not allocated yet") || strings.Contains(ve.msg, "unallocated cell")) {
+				bad = true
+				return
+			}
+			panic(r)
+		}
+	}()
+	fx.evalSpec(a.E, env)
+	return false
 }
